@@ -32,11 +32,12 @@ class C18(Prop):
     assumptions = [
         "observations are sha1 digests of (html, dependency order) printed by each process; processes are compared by TLC",
         "the battery covers: tree with dependencies, head_content names, HTMLDocument, HTMLTextDocument extraction, "
-        "attribute/class/style helpers and css(), a JSX component",
+        "attribute/class/style helpers and css(), a JSX component, two versions of a package-sourced dependency",
     ]
 
     def model_runs(self, tier):
-        return [{"module": "Determinism", "cfg": f"Determinism_{tier}.cfg"}]
+        return [{"module": "Determinism", "cfg": f"Determinism_{tier}.cfg"},
+                {"module": "Determinism", "cfg": f"Determinism_{tier}2.cfg"}]
 
     def nontrivial(self, rec):
         if rec["k"] == "runs":
@@ -64,7 +65,7 @@ class C18(Prop):
         for _ in range(300 if tier == "quick" else 3000):
             a = rnd.choice(pool) if rnd.random() < 0.7 else gamma.rand_text(rnd, 12)
             b = rnd.choice(pool + [a, a]) if rnd.random() < 0.8 else gamma.rand_text(rnd, 12)
-            gens.append({"kind": "pair", "a": a, "b": b, "how": rnd.choice(["html", "str", "tag"])})
+            gens.append({"kind": "pair", "a": a, "b": b, "how": rnd.choice(["html", "str", "tag", "withdep", "withdep_json", "mode_mix"])})
         return gens
 
     # constructions borrowed from the other properties' drivers: each is executed twice in THIS process, the second
@@ -145,13 +146,24 @@ class C18(Prop):
             return {"k": "runs", "runs": runs, "gen": g}
         how = g["how"]
 
-        def mk(s):
+        def mk(s, which=0):
+            if how in ("withdep", "withdep_json", "mode_mix"):
+                # payloads that also carry a dependency (which never shows in the rendered head content), constructed
+                # under either dependency render mode: the name is a function of the rendered content only
+                dep = H.HTMLDependency("hd" + str(which if how != "mode_mix" else 0), "1.0", script={"src": "f.js"})
+                old = H.html_dependency_render_mode
+                try:
+                    if how == "withdep_json" or (how == "mode_mix" and which == 1):
+                        H.html_dependency_render_mode = "json"
+                    return H.head_content(H.tags.title(s), dep)
+                finally:
+                    H.html_dependency_render_mode = old
             if how == "html":
                 return H.head_content(H.HTML(s))
             if how == "str":
                 return H.head_content(s)
             return H.head_content(H.tags.title(s), H.tags.meta(name="n", content=s))
-        da, db = mk(g["a"]), mk(g["b"])
+        da, db = mk(g["a"], 0), mk(g["b"], 1)
         ra, rb = da.head.get_html_string(), db.head.get_html_string()
         doc = H.HTMLDocument(H.tags.div(da, "x", H.tags.span(db))).render()
         return {"k": "pair", "nameA": da.name, "nameB": db.name, "sameContent": ra == rb,
